@@ -149,6 +149,48 @@ def gen_plan(rng):
             at = rng.below(len(ops) + 1)
             ops[at:at] = tmpl
 
+        if rng.chance(20):
+            # a relative target with a 'name/..' pair in it: what the pair
+            # means depends on what 'name' is at the time the link is used,
+            # not at the time it was checked
+            d = rng.choice(['', 'sub/', 'a/'])
+            n = rng.choice(['n', 'new'])
+            evil = rng.choice(['outside/secret.txt', 'f.txt', 'outside',
+                               'outside/new.txt', 'esc.txt'])
+            ups = '../' * (d.count('/') + 1)
+
+            if rng.chance(50):
+                # the name does not exist yet and becomes a link to '.'
+                tmpl = [['symlink', d + 'L', n + '/' + ups + evil],
+                        ['symlink', d + n, rng.choice(['.', '..', './.'])]]
+            else:
+                # the name is a link to a deeper place, later a directory
+                tmpl = [['mkdir', d + 'p'], ['mkdir', d + 'p/q'],
+                        ['symlink', d + n, 'p/q'],
+                        ['symlink', d + 'L', n + '/../' + ups + evil],
+                        ['remove', d + n], ['mkdir', d + n]]
+
+            tmpl.append([rng.choice(['open_w', 'open_r', 'stat', 'listdir',
+                                     'mkdir', 'remove', 'readlink']),
+                         rng.choice([d + 'L', d + 'L/f.txt'])])
+            at = rng.below(len(ops) + 1)
+            ops[at:at] = tmpl
+
+        if rng.chance(15):
+            # a second name (hard link) for a relative symbolic link, in a
+            # shallower directory
+            deep = rng.choice(['sub/deep', 'sub', 'a'])
+            depth = deep.count('/') + 1
+            target = '../' * depth + rng.choice(['f.txt', 'a', 'a/f.txt'])
+            dst = rng.choice(['hl', 'a/hl'] if depth > 1 else ['hl'])
+            tmpl = [['symlink', deep + '/lnk', target],
+                    ['link', deep + '/lnk', dst],
+                    [rng.choice(['open_w', 'open_r', 'stat', 'listdir',
+                                 'readlink']),
+                     rng.choice([dst, dst + '/f.txt'])]]
+            at = rng.below(len(ops) + 1)
+            ops[at:at] = tmpl
+
         plan['ops'] = ops
         plan['version'] = rng.choice([3, 3, 4, 6])
         return plan
@@ -461,10 +503,16 @@ def run_server(world, plan, base):
         acc.close()
         await acc.wait_closed()
 
+    # the server process's working directory is a place next to the root:
+    # a path the server forgets to anchor inside the root shows up there
+    cwd = os.getcwd()
+    os.chdir(base)
+
     try:
         world.start(main())
         world.run_phase()
     finally:
+        os.chdir(cwd)
         recs = fsaudit.stop()
 
     after = fsaudit.snapshot(base)
